@@ -1,2 +1,137 @@
+"""C03 decoder side: the frames the real encoder produces, fed in order to the real _decode_fast_message,
+give nothing until the last frame and then exactly one delivery of the original payload.  One symbolic run per
+payload length (bytes, counter, addressing and the pre-existing record symbolic); complete for that length."""
+from __future__ import annotations
+import time
+import z3
+from pyvc import values as V
+from pyvc.values import Sym, bool_term, vand, veq, mk_int, mk_bool
+from pyvc.sbytes import SBytes
+from pyvc.symmap import Combined, ABSENT, present_term
+from pyvc.report import Task
+from pyvc.tasks import repo, budget, result_dict
+from pyvc.solve import Obligation, discharge
+from pyvc.symex import explore, Obj, Opaque
+from props.C01 import term, chunks
+from props.C04 import State, frames_setattr_hook, FUNC
+
+
+class RoundTripTask(Task):
+    def __init__(self, lengths, pad):
+        self.lengths = lengths
+        self.pad = pad
+        self.name = f'C03:encode->decode[n={lengths[0]}..{lengths[-1]},pad={pad}]'
+
+    def run(self, tier):
+        out = {'results': [], 'functions': [], 'notes': [], 'bounded': []}
+        r = repo()
+        enc_info = r.func('encoder.NMEA2000Encoder._encode_fast_message')
+        dec_info = r.func(FUNC)
+        out['functions'].append(dec_info.describe())
+        for n in self.lengths:
+            try:
+                self.one(r, enc_info, dec_info, n, tier, out)
+            except V.Unsupported as u:
+                out['error'] = f'round trip n={n}: outside the modelled subset: {u}'
+                from props.C04_scenarios import fallback_results
+                out['results'].extend(fallback_results())
+                return out
+        return out
+
+    def one(self, r, enc_info, dec_info, n, tier, out):
+        base = f'C03/roundtrip[n={n},padding={"yes" if self.pad else "no"}]'
+        pad = self.pad
+
+        def cdf(ex, f, args, kwargs):
+            ex.ghost.setdefault('cdf_calls', []).append(list(args))
+            return Opaque('decode-result')
+
+        def run(ex):
+            st = State(ex, r, 0)
+            ex.ghost['st'] = st
+            s = ex.fresh('seq', bits=3)
+            ex.ghost['s'] = s
+            # the previous message of this stream (if any) had a different counter - as the encoder guarantees
+            ex.assume(z3.Or(st.absent.t, st.sc.t != s.t))
+            P = [ex.fresh(f'p{i}', bits=8) for i in range(n)]
+            ex.ghost['P'] = P
+            enc = Obj(r.cls('encoder', 'NMEA2000Encoder'), {'sequence_counter': s})
+            frames = ex._run_body(enc_info, [st.pgn, st.priority, st.src, st.dest, SBytes(P)], {}, enc)
+            rets = []
+            for fr in frames:
+                items = list(SBytes.of(fr).items)
+                if pad:
+                    items = items + [ex.fresh('pad', bits=8) for _ in range(8 - len(items))]
+                can = SBytes(items[::-1])
+                rets.append(ex._run_body(dec_info, [st.pgn, st.priority, st.src, st.dest, st.timestamp, can, st.iso, st.raw], {}, st.decoder))
+                ex.ghost.setdefault('ncalls_after', []).append(len(ex.ghost.get('cdf_calls', [])))
+            return rets
+        results = explore(r, run, contracts={'nmea2000.decoder.NMEA2000Decoder._call_decode_function': cdf},
+                          inline={'nmea2000.decoder.fast_pgn_metadata.__init__'}, hooks={'setattr': frames_setattr_hook})
+        obs = []
+        for pi, p in enumerate(results):
+            hyps = list(p.pc)
+            st = p.ex.ghost['st']
+            inputs = dict(st.inputs)
+            inputs['seq'] = p.ex.ghost['s'].t
+            for i, b in enumerate(p.ex.ghost['P']):
+                inputs[f'p{i}'] = b.t
+
+            def add(name, goal, note=''):
+                obs.append(Obligation(f'{base}/{name}/path[{pi}]', hyps, term(goal), kind='lemma', inputs=inputs, meta={'note': note}))
+            if p.kind == 'raise':
+                add('no-exception', False, f'raises {p.exc_name()}')
+                continue
+            rets = p.value
+            nc = p.ex.ghost.get('ncalls_after', [])
+            add('nothing-until-the-last-frame', all(x is None for x in rets[:-1]) and all(c == 0 for c in nc[:-1]), f'returns {rets[:-1]!r}, deliveries {nc}')
+            calls = p.ex.ghost.get('cdf_calls', [])
+            add('exactly-one-delivery-at-the-last-frame', len(calls) == 1 and rets[-1] is not None, f'{len(calls)} deliveries')
+            if len(calls) == 1:
+                got = calls[0][5]
+                gb = got.concrete_bytes() if isinstance(got, Combined) else (got if isinstance(got, (SBytes, bytes)) else None)
+                want = SBytes(list(p.ex.ghost['P'])[::-1])
+                add('delivered-payload-is-the-original', SBytes.eq(gb, want) if gb is not None else False, f'delivered {gb!r}')
+            add('record-removed-after-delivery', mk_bool(z3.Not(present_term(st.data.entries[0][1]))))
+        for ob in obs:
+            res = discharge(ob, budget(tier))
+            dct = result_dict(res, with_size=False)
+            dct['function'] = 'encoder._encode_fast_message + ' + FUNC
+            if res.status == 'refuted':
+                dct['reason'] = ob.meta.get('note', '')
+                dct['replay'] = replay_roundtrip(n, self.pad, res.model or {})
+            out['results'].append(dct)
+
+
+def replay_roundtrip(n, pad, model):
+    """Encode with the real encoder, feed the frames to a real decoder through decode_tcp, compare."""
+    from props.C04_scenarios import packet, expected_fields, payload_of, PGN
+    import nmea2000.encoder as E
+    import nmea2000.decoder as D
+    enc = E.NMEA2000Encoder()
+    s = int(model.get('seq', 0)) % 8
+    enc.sequence_counter = s
+    P = bytes([0xFE, 0x9F] + [int(model.get(f'p{i}', 0)) % 256 for i in range(2, n)])[:n]
+    try:
+        frames = enc._encode_fast_message(PGN, 3, 1, 255, P)
+        dec = D.NMEA2000Decoder()
+        # a previous, incomplete message with another counter
+        prev = (s + 3) % 8
+        dec.decode_tcp(packet(PGN, 1, 255, bytes([(prev << 5), 40, 1, 2, 3, 4, 5, 6])))
+        outs = []
+        for fr in frames:
+            fr = bytes(fr) + (bytes([0xFF]) * (8 - len(fr)) if pad else b'')
+            outs.append(dec.decode_tcp(packet(PGN, 1, 255, fr)))
+    except Exception as e:  # noqa
+        return {'confirmed': True, 'inputs': {'n': n, 'seq': s, 'payload': P.hex()}, 'observed': ['raise', type(e).__name__, str(e)[:100]]}
+    ok = all(o is None for o in outs[:-1]) and outs[-1] is not None and (n < 2 or payload_of(outs[-1]) == expected_fields(P))
+    return {'confirmed': not ok, 'inputs': {'n': n, 'seq': s, 'payload': P.hex(), 'padded': bool(pad)},
+            'observed': [None if o is None else str(payload_of(o))[:200] for o in outs][-3:], 'expected': 'None for every frame but the last, then the original payload',
+            'how': 'NMEA2000Encoder._encode_fast_message -> NMEA2000Decoder.decode_tcp per frame on the working tree'}
+
+
 def add(run, tier):
-    pass
+    ls = list(range(0, 224))
+    for pad in (False, True):
+        for ch in chunks(ls, 16):
+            run.add(RoundTripTask(ch, pad))
